@@ -6,7 +6,10 @@ from common import (Rng, assumptions, coq_eval, coq_make, harness_build, hygiene
                     write_evidence, write_replay, TRUSTED_BASE)
 
 PROP = "C20"
-THEOREMS = ["C20_model_smoke"]
+THEOREMS = ["C20_model_smoke", "C20_heartbeat_is_clamped", "C20_heartbeat_zero_is_max", "C20_heartbeat_in_range_kept", "C20_connect_deadline_exact",
+            "C20_auth_deadline_exact", "C20_handshake_in_time_no_timeout", "C20_idle_is_pinged_within_two_intervals", "C20_ping_timeout_exact",
+            "C20_ping_then_wait_three_intervals", "C20_active_is_never_pinged", "C20_stale_pong_gets_closed", "C20_closed_is_final",
+            "C20_fuel_is_adequate", "C20_output_times_bounded"]
 PRELUDE = "From NW Require Import Base.Bytes Model.Timers Conf.CodecConf Conf.TimerConf.\n"
 
 
